@@ -13,7 +13,7 @@ Nothing is ever written into /repo.  The overlay JSON handed to `go test -c
    own non-test files.  The rest of each file is copied byte for byte from the
    current working tree, so an edit to that file is still what gets compiled.
 """
-import os, json, re
+import os, json, re, subprocess
 
 SDK_MOD = "github.com/openbao/openbao/sdk/v2"
 SHIMS = {
@@ -79,6 +79,20 @@ def rewrite_imports(src, pkgs):
     return "\n".join(out) if changed else None
 
 
+def _stmt_tool(verif):
+    """Builds tools/stmtpoints on demand (stdlib only, offline)."""
+    src = os.path.join(verif, "tools", "stmtpoints")
+    out = os.path.join(verif, "bin", ".tools", "stmtpoints")
+    newest = max(os.path.getmtime(os.path.join(src, f)) for f in os.listdir(src))
+    if not os.path.exists(out) or os.path.getmtime(out) < newest:
+        os.makedirs(os.path.dirname(out), exist_ok=True)
+        env = dict(os.environ, GOFLAGS="-mod=mod", GOPROXY="off", GOSUMDB="off", GOTOOLCHAIN="local")
+        tmp = out + ".%d" % os.getpid()
+        subprocess.run(["go1.27.0", "build", "-o", tmp, "."], cwd=src, env=env, check=True)
+        os.replace(tmp, out)
+    return out
+
+
 def make(verif, repo, scratch, unit):
     replace = {}
     eng = os.path.join(verif, "engine")
@@ -123,6 +137,20 @@ def make(verif, repo, scratch, unit):
             replace[f] = dst
             n += 1
         unit["_rewritten_files"] = n
+    # statement-level hook points in selected functions (tools/stmtpoints): the
+    # instrumented copy is produced from the CURRENT working-tree file
+    sp = unit.get("stmtpoints") or {}
+    if sp:
+        tool = _stmt_tool(verif)
+        spdir = os.path.join(scratch, "sp." + unit["name"])
+        for rel, funcs in sp.items():
+            src = replace.get(os.path.join(repo, rel), os.path.join(repo, rel))
+            dst = os.path.join(spdir, rel)
+            os.makedirs(os.path.dirname(dst), exist_ok=True)
+            r = subprocess.run([tool, src, dst, SDK_MOD + "/helper/verif/vstmt", funcs], capture_output=True, text=True)
+            if r.returncode != 0:
+                raise RuntimeError("stmtpoints failed for %s: %s" % (rel, r.stderr))
+            replace[os.path.join(repo, rel)] = dst
     ovpath = os.path.join(scratch, "overlay.%s.json" % unit["name"])
     with open(ovpath, "w") as o:
         json.dump({"Replace": replace}, o)
